@@ -36,5 +36,6 @@ def _protocol(ctx):
                 evplan.queries(ctx, 'c08', [GRAMMARS[0], GRAMMARS[1], GRAMMARS[5]], ['leaf'], N, modes=('ar', 'ao')) +
                 evplan.queries(ctx, 'c08', [GRAMMARS[1]], ['leaf_bool'], N, modes=('ar',)) +
                 evplan.queries(ctx, 'c08', [GRAMMARS[1], GRAMMARS[5]], ['unw'], N, modes=('ar', 'ao')) +
-                evplan.queries(ctx, 'c08', [GRAMMARS[1]], ['unw_bool'], N, modes=('ar',)))
-    return evplan.queries(ctx, 'c08', GRAMMARS, ['leaf', 'leaf_bool', 'unw', 'unw_bool', 'plain', 'plain_nu', 'void', 'void_nu', 'bool', 'bool_nu', 'void0', 'bool0', 'statectl', 'statectl_bool', 'statectl_void0', 'statectl_rot', 'rmfirst'], N, modes=('ar', 'ao', 'nr', 'no'))
+                evplan.queries(ctx, 'c08', [GRAMMARS[1]], ['unw_bool'], N, modes=('ar',)) +
+                evplan.queries(ctx, 'c08', [GRAMMARS[3], GRAMMARS[5]], ['rot0'], N, modes=('ar',)))
+    return evplan.queries(ctx, 'c08', GRAMMARS, ['leaf', 'leaf_bool', 'unw', 'unw_bool', 'rot0', 'plain', 'plain_nu', 'void', 'void_nu', 'bool', 'bool_nu', 'void0', 'bool0', 'statectl', 'statectl_bool', 'statectl_void0', 'statectl_rot', 'rmfirst'], N, modes=('ar', 'ao', 'nr', 'no'))
